@@ -191,6 +191,13 @@ def main(tier, replay=None, selftest=False):
     docs = list({vlib.stable_hash(d): d for d in resp["cases"]["DOC"] + resp3["cases"].get("DOC", [])}.values())
     docs, stats = progcheck.covering_sample(sj, docs, nprog, rng)
     ck.notes["sampling"] = stats
+    # always in the sample: the shapes of c01.PINNED_DOCS; two documents in three: fragment names whose snake_case form
+    # is a Rust keyword (the names of the flattened members that hold them - D32)
+    import c01 as _c01, copy as _copy
+    docs = [_copy.deepcopy(d) for d in _c01.PINNED_DOCS] + docs
+    for i, d in enumerate(docs):
+        if i % 3 != 2:
+            prog.rename_program({"doc": d, "vectors": []}, mapping={})
     # schema: universe + inputs
     sch = prog.schema_from_tla(sj, "full")
     tr = lambda b, q=(): {"q": list(q), "base": b}
@@ -204,7 +211,7 @@ def main(tier, replay=None, selftest=False):
     shutil.rmtree(base, ignore_errors=True)
     os.makedirs(os.path.join(base, "files"))
     spaths = {"sdl": os.path.join(base, "files", "schema.graphql"), "json": os.path.join(base, "files", "schema.json")}
-    open(spaths["sdl"], "w").write(render.sdl(sch, fold_extensions=False))
+    open(spaths["sdl"], "w").write(render.sdl(sch, fold_extensions=False, declare_builtins=True))
     open(spaths["json"], "w").write(render.introspection_json(sch))
     classes = {}
     for c in confs:
